@@ -201,18 +201,21 @@ def convex_variant(rng, case, res):
 
 # --------------------------------------------------------------------------- deep-merge families (screened in volume)
 
+TREE_PARAMS = {'spacing': (0.75, 0.95), 'npts': (50, 64), 'tipbias': [0.8, 0.85, 0.9, 0.95]}   # tuned on hit rates, see notes/C05.md
+
+
 def lattice_tree(rng):
     """a tree-like component grown on a lattice of spacing < linklength (only axis neighbours link), winding through many
     chunks of the enforced minimum size 4*linklength: the same component enters many cells as separate fragments, so the
     mapGroups chains get deep (merges of already-merged roots, labels two or more levels below their root)"""
     ll = rng.choice([0.25, 0.25, 0.1, 0.5])
     cs = 4 * ll
-    s = ll * rng.uniform(0.75, 0.95)
+    s = ll * rng.uniform(*TREE_PARAMS['spacing'])
     occ = {(0, 0)}
     order = [(0, 0)]
-    npts = rng.randint(25, 46)
+    npts = rng.randint(*TREE_PARAMS['npts'])
     tries = 0
-    tipbias = rng.choice([0.0, 0.5, 0.8, 0.95])
+    tipbias = rng.choice(TREE_PARAMS['tipbias'])
     while len(order) < npts and tries < 5000:
         tries += 1
         base = order[-1] if rng.random() < tipbias else rng.choice(order)
@@ -428,16 +431,16 @@ def correspond(ctx, proof_ok=True):
         cases.append(reorder(rng, c))
     # deep-merge families: screened in volume by an uncertified comparison inside the implementation process; every
     # suspicious case and a fixed-size sample go through the full recorded run and the Coq evaluation below
-    sky = [lattice_tree(rng) for _ in range(ctx.n(24000, 240000))]
+    sky = [lattice_tree(rng) for _ in range(ctx.n(10000, 200000))]
     sky_sus = screen_batch(sky)
-    pick = sky_sus[:12] + list(range(0, len(sky), max(1, len(sky) // ctx.n(24, 200))))
+    pick = sky_sus[:8] + list(range(0, len(sky), max(1, len(sky) // ctx.n(8, 200))))
     cases += [sky[k] for k in sorted(set(pick))]
-    syn = [synthetic_case(rng) for _ in range(ctx.n(20000, 200000))]
+    syn = [synthetic_case(rng) for _ in range(ctx.n(8000, 200000))]
     for nn in (4, 5, 6):
         syn += exhaustive_edge_orders(rng, nn)
     syn = [c for c in syn if synthetic_covered(c)]
     syn_sus = screen_batch(syn)
-    pick = syn_sus[:12] + list(range(0, len(syn), max(1, len(syn) // ctx.n(40, 400))))
+    pick = syn_sus[:8] + list(range(0, len(syn), max(1, len(syn) // ctx.n(40, 400))))
     syn_cases = [syn[k] for k in sorted(set(pick))]
     ctx.coverage['screened'] = {
         'rule': 'screening = real spheregroup call compared (uncertified, in the implementation process) with a brute-force labelling; '
